@@ -206,6 +206,9 @@ def check(case):
                 raise Violation("let-filled-meaning", f"expected {show(m_ref)}\ngot      {show(mf)}\n--- program:\n{text}")
         except extract.ExtractError as e:
             raise Violation("let-filled-unresolvable", f"{e}\n--- program:\n{text}")
+    # overriding a let that some macro parameter shadows: the parameter is a different binding and
+    # stays what it is; only the header binding changes (main body, unshadowed uses in macros)
+    _overridden_shadowed_let(prog, c, text)
     # alias fill-in on the unexpanded circuit may refuse (a macro body that indexes one of its
     # parameters), but when it answers, main body AND macro bodies must still mean the same
     from jaqalpaq.core.algorithm.fill_in_map import fill_in_map
@@ -262,6 +265,57 @@ def check(case):
     if any(prog["reg"] and p == prog["reg"][0] or p in [x[0] for x in prog["maps"]] for m in prog["macros"] for p in m["params"]):
         classes.append("param-shadows-register-or-alias")
     return {"nontrivial": differ, "classes": classes, "key": text, "sample": {"text": text}}
+
+
+def _overridden_shadowed_let(prog, c, text):
+    from jaqalpaq.core.algorithm import fill_in_let
+
+    shadowed = [n for n, _v in prog["lets"] if any(n in m["params"] for m in prog["macros"])]
+    if not shadowed:
+        return
+    lets = dict(prog["lets"])
+    env = {}
+    for n in shadowed:
+        v = lets[n]
+        for cand in ([v + 1, v - 1, 0] if is_int(v) else [v + 0.5]):
+            if cand == v:
+                continue
+            trial = dict(env)
+            trial[n] = cand
+            try:
+                Ref(prog, trial).validate()
+            except Invalid:
+                continue
+            if gen.frozen_default_risk(prog, trial):
+                continue
+            env = trial
+            break
+    if not env:
+        return
+    ref = Ref(prog, env)
+    m_ref = ref.validate()
+    st_, f = guard(fill_in_let, c, dict(env), what="fill_in_let")
+    if st_ == "err":
+        raise Violation("let-override-rejected", f"{f}\n--- overrides {env}\n--- program:\n{text}")
+    try:
+        ex = extract.Extractor(f, {})
+        m_f = ex.meaning()
+        if not same_meaning(m_ref, m_f):
+            raise Violation("let-override-meaning", f"expected {show(m_ref)}\ngot      {show(m_f)}\n--- overrides {env}\n--- program:\n{text}")
+        for m in prog["macros"]:
+            probe = _probe_args(_infer_roles(prog, m), m["params"], ref)
+            try:
+                mm_ref = ref.macro_meaning(m["name"], probe)
+            except Invalid:
+                continue
+            mm_f = ex.macro_meaning(m["name"], probe)
+            if not same_meaning(mm_ref, mm_f):
+                raise Violation(
+                    "let-override-macro-body-meaning",
+                    f"macro {m['name']} probe {probe}\nexpected {show(mm_ref)}\ngot      {show(mm_f)}\n--- overrides {env}\n--- program:\n{text}",
+                )
+    except extract.ExtractError as e:
+        raise Violation("let-override-unresolvable", f"{e}\n--- overrides {env}\n--- program:\n{text}")
 
 
 def _all_names(s):
